@@ -4,6 +4,7 @@
 From Coq Require Import List Bool Arith ZArith NArith Lia Init.Byte.
 From HL7 Require Import Lib.Str Model.Ec Model.Result Model.Ref Model.Tree Model.Parser Model.Encode Model.Wf.
 From HL7 Require Import Gen.Tables.
+From HL7 Require Oblig.WfAll.
 From HL7 Require Import Proofs.RoundTripStr Proofs.RoundTripCore Proofs.RoundTripSeg Proofs.RoundTripTables.
 Import ListNotations.
 Open Scope bs_scope.
@@ -65,28 +66,19 @@ Definition good_okb (flat : list str) (p : str * list srow) : bool :=
   dt_name_okb (fst p) && rows_contiguous (fst p) CMP 1 (snd p) && forallb (comp_row_okb flat) (snd p).
 Definition good_names : list str := let flat := flat_names in map fst (filter (good_okb flat) (t_structs t)).
 
-Definition field_row_okb (good : list str) (row : srow) : bool :=
-  match row_ref t row with
-  | Some (SLeaf i) => true
-  | Some (SSeqDt i) => match i_dt i with Some D => smem D good | None => false end
-  | _ => false
-  end.
-
-Definition seg_okb (good : list str) (p : str * sref) : bool :=
-  match snd p with
-  | SSeqIn false rows None =>
-      Nat.eqb (length (fst p)) 3 && streqb (upper (fst p)) (fst p) && negb (streqb (fst p) (unbs "MSH")) &&
-      negb (valid_z_segment_name (fst p)) && rows_contiguous (fst p) FIE 1 rows && forallb (field_row_okb good) rows
-  | _ => false
-  end.
+(* per segment, what Model/Wf.v's wf_seg does not say *)
+Definition seg_name_okb (sn : str) : bool :=
+  streqb (upper sn) sn && negb (streqb sn (unbs "MSH")) && negb (valid_z_segment_name sn).
 
 Definition excluded (n : str) : bool := streqb n (unbs "ANYHL7SEGMENT") || streqb n (unbs "MSH").
 
-(* the whole table: keys are unique, and every segment but the two excluded ones is fine *)
+(* the whole table: keys are unique, every struct that Wf.v calls good satisfies the (stronger)
+   premises of RoundTripSeg.v, segment names are upper case and not Z names.  The expensive part
+   (every field row of every segment resolves to a well-formed reference) is Oblig/Wf_v*.v. *)
 Definition seg_tables_ok : bool :=
   nodupb streqb (map fst (t_structs t)) && nodupb streqb (map fst (t_segments t)) &&
-  let good := good_names in
-  forallb (fun p => seg_okb good p || excluded (fst p)) (t_segments t).
+  (let good := good_names in forallb (fun d => smem d good) (good_structs t)) &&
+  forallb (fun p : str * sref => seg_name_okb (fst p) || excluded (fst p)) (t_segments t).
 
 (* ---- soundness ---- *)
 Hypothesis Hnd : NoDup (map fst (t_structs t)).
@@ -134,26 +126,46 @@ Proof.
   intros row Hr. apply comp_row_okb_sound. rewrite forallb_forall in Hf0. now apply Hf0.
 Qed.
 
-Lemma field_row_okb_sound row : field_row_okb good_names row = true -> field_row_ok t row.
+Hypothesis Hgood : forallb (fun d => smem d good_names) (good_structs t) = true.
+
+Lemma wf_field_row_sound row : wf_field_row t (good_structs t) row = true -> field_row_ok t row.
 Proof.
-  unfold field_row_okb, field_row_ok. destruct (row_ref t row) as [[i|i|c cs oi|]|]; try discriminate.
+  unfold wf_field_row, wf_field_ref, field_row_ok. destruct (row_ref t row) as [[i|i|c cs oi|]|]; try discriminate.
   - intros _. exists (SLeaf i). auto.
   - destruct (i_dt i) as [D|] eqn:E; [|discriminate]. intros H.
-    destruct (good_names_sound D H) as [rows [Hl Hg]]. exists (SSeqDt i). split; [reflexivity|].
+    apply smem_In in H. rewrite forallb_forall in Hgood. specialize (Hgood D H).
+    destruct (good_names_sound D Hgood) as [rows [Hl Hg]]. exists (SSeqDt i). split; [reflexivity|].
     exists D, rows. auto.
 Qed.
 
-Lemma seg_okb_sound sn r : seg_okb good_names (sn, r) = true ->
+Lemma wf_seg_sound sn r : wf_seg t (good_structs t) (sn, r) = true -> seg_name_okb sn = true ->
   exists rows, r = SSeqIn false rows None /\
     length sn = 3 /\ upper sn = sn /\ streqb sn (unbs "MSH") = false /\ valid_z_segment_name sn = false /\
     rows_contiguous sn FIE 1 rows = true /\ (forall row, In row rows -> field_row_ok t row).
 Proof.
-  unfold seg_okb. cbn [fst snd]. destruct r as [i|i|[|] rows [i|]|]; try discriminate.
-  intros H. do 5 (apply andb_prop in H; destruct H as [H ?H]).
+  unfold wf_seg, seg_name_okb. cbn [fst snd]. destruct r as [i|i|[|] rows [i|]|]; try discriminate.
+  intros H G. do 2 (apply andb_prop in H; destruct H as [H ?H]). do 2 (apply andb_prop in G; destruct G as [G ?G]).
   exists rows. split; [reflexivity|].
   split; [now apply Nat.eqb_eq|]. split; [now apply streqb_eq|]. split; [now apply negb_true_iff|].
   split; [now apply negb_true_iff|]. split; [assumption|].
-  intros row Hr. apply field_row_okb_sound. rewrite forallb_forall in H0. now apply H0.
+  intros row Hr. apply wf_field_row_sound. rewrite forallb_forall in H0. now apply H0.
+Qed.
+
+(* Wf.report_ok: every segment other than the wildcard is well formed *)
+Lemma report_ok_seg p : report_ok t = true -> In p (t_segments t) -> fst p <> unbs "ANYHL7SEGMENT" ->
+  wf_seg t (good_structs t) p = true.
+Proof.
+  unfold report_ok, table_report. intros H Hi Hn.
+  apply andb_prop in H. destruct H as [H _].
+  destruct (wf_seg t (good_structs t) p) eqn:E; [reflexivity|exfalso].
+  assert (Hb : In (fst p) (map fst (filter (fun p => negb (wf_seg t (good_structs t) p)) (t_segments t)))).
+  { apply in_map. apply filter_In. split; [exact Hi|now rewrite E]. }
+  change (map fst (filter (fun p0 => negb (wf_seg t (map fst (filter (wf_struct t (flat_structs t)) (t_structs t))) p0)) (t_segments t)))
+    with (map fst (filter (fun p => negb (wf_seg t (good_structs t) p)) (t_segments t))) in H.
+  destruct (map fst (filter (fun p => negb (wf_seg t (good_structs t) p)) (t_segments t))) as [|x [|y l]].
+  - destruct Hb.
+  - cbn [only_wildcard] in H. apply streqb_eq in H. destruct Hb as [Hb|[]]. congruence.
+  - discriminate.
 Qed.
 
 End Checks.
@@ -171,11 +183,12 @@ Lemma shipped_segment_ok v t sn r : tables_of v = Some t -> In (sn, r) (t_segmen
 Proof.
   intros Ht Hi Ha Hm.
   pose proof (lookup_forallb (fun _ x => seg_tables_ok x) all_tables v t all_seg_tables_ok Ht) as F.
-  unfold seg_tables_ok in F. do 2 (apply andb_prop in F; destruct F as [F ?F]).
-  apply nodupb_streqb_NoDup in F. apply nodupb_streqb_NoDup in F1.
+  unfold seg_tables_ok in F. do 3 (apply andb_prop in F; destruct F as [F ?F]).
+  apply nodupb_streqb_NoDup in F. apply nodupb_streqb_NoDup in F2.
   split; [now apply In_slookup|].
-  rewrite forallb_forall in F0. specialize (F0 _ Hi). cbn [fst] in F0.
-  apply orb_prop in F0. destruct F0 as [F0|F0].
-  - now apply (seg_okb_sound t F).
-  - exfalso. unfold excluded in F0. apply orb_prop in F0. destruct F0 as [E|E]; apply streqb_eq in E; congruence.
+  apply (wf_seg_sound t F F1).
+  - apply (report_ok_seg t (sn, r)); auto. exact (Oblig.WfAll.tables_of_wf v t Ht).
+  - rewrite forallb_forall in F0. specialize (F0 _ Hi). cbn [fst] in F0.
+    apply orb_prop in F0. destruct F0 as [F0|F0]; [exact F0|exfalso].
+    unfold excluded in F0. apply orb_prop in F0. destruct F0 as [E|E]; apply streqb_eq in E; congruence.
 Qed.
